@@ -83,6 +83,9 @@ LIT_ROWS = [
     ('"x"', "http://www.w3.org/2001/XMLSchema#string"),
     ('"x"@en', "http://www.w3.org/1999/02/22-rdf-syntax-ns#langString"),
     ('"x"@en-GB', "http://www.w3.org/1999/02/22-rdf-syntax-ns#langString"),
+    ('"x"@zh-Hans', "http://www.w3.org/1999/02/22-rdf-syntax-ns#langString"),
+    ('"x"@es-419', "http://www.w3.org/1999/02/22-rdf-syntax-ns#langString"),
+    ('"x"@de-CH-1996', "http://www.w3.org/1999/02/22-rdf-syntax-ns#langString"),
     ('"5"^^<http://www.w3.org/2001/XMLSchema#int>', "http://www.w3.org/2001/XMLSchema#int"),
     ('"5"^^xsd:int', "http://www.w3.org/2001/XMLSchema#int"),
     ('"x"^^<http://example.org/dt>', "http://example.org/dt"),
